@@ -179,6 +179,11 @@ fn check_string(s: &str, stats: &mut Stats, pairs_too: bool) {
                 }
             }
         }
+        // the conversion Position -> LineColLocation
+        match catch(|| LineColLocation::from(Position::new(s, o).unwrap())) {
+            Ok(LineColLocation::Pos(lc)) if lc == want_lc => {}
+            other => viol(stats, "line-col-location-from-position", s, o, None, format!("LineColLocation::from(position) = {other:?}, reference Pos({want_lc:?})")),
+        }
         // pairs (LineIndex path)
         match catch(|| {
             let pairs = PairsBuilder::<u8>::new(s).rule(1, o, len).build();
@@ -317,6 +322,14 @@ fn check_string(s: &str, stats: &mut Stats, pairs_too: bool) {
                             viol(stats, "merge-spans", s, a, Some(b), format!("merge_spans({a}..{b}, {c}..{d}) = {got:?}, reference {want:?}"));
                         }
                     }
+                }
+            }
+            // the conversion Span -> LineColLocation
+            {
+                let want = (ref_line_col(s, a), ref_line_col(s, b));
+                match catch(|| LineColLocation::from(sp)) {
+                    Ok(LineColLocation::Span(x, y)) if (x, y) == want => {}
+                    other => viol(stats, "line-col-location-from-span", s, a, Some(b), format!("LineColLocation::from(span) = {other:?}, reference Span{want:?}")),
                 }
             }
             {
